@@ -1244,4 +1244,340 @@ theorem judge_history : ∀ (ops : List Op) (b : Bucket) (seg : List Event) (hi 
 
 end
 
+
+/-! ### which limiter is in force after a history of `Sync`s -/
+
+/-- what the configuration path needs of a bucket implementation -/
+structure BOpsOK {β : Type} (O : BOps β) : Prop where
+  new_qps : ∀ q b, O.qps (O.new q b) = q
+  new_burst : ∀ q b, O.burst (O.new q b) = b
+  resize_qps : ∀ x q b, O.qps (O.resize x q b) = q
+  resize_burst : ∀ x q b, O.burst (O.resize x q b) = b
+
+theorem ratOps_ok : BOpsOK ratOps where
+  new_qps := fun _ _ => rfl
+  new_burst := fun _ _ => rfl
+  resize_qps := by
+    intro x q b
+    show ((x.resize q b).2).qps = q
+    unfold Bucket.resize
+    split
+    · rfl
+    · rename_i h
+      have : x.qps = q := Classical.byContradiction fun hne => h (Or.inl hne)
+      exact this
+  resize_burst := by
+    intro x q b
+    show ((x.resize q b).2).burst = b
+    unfold Bucket.resize
+    split
+    · rfl
+    · rename_i h
+      have : x.burst = b := Classical.byContradiction fun hne => h (Or.inr hne)
+      exact this
+
+/-- a wrapper serves its recorded configuration as configured -/
+def WInv {β : Type} (O : BOps β) (w : LocalWrapper β) : Prop :=
+  ∀ c, w.config = some c → inForceOK c (see O w.fc) = true
+
+theorem wInv_empty {β : Type} (O : BOps β) : WInv O (LocalWrapper.empty : LocalWrapper β) := by
+  intro c h; cases h
+
+theorem wInv_of {β : Type} {O : BOps β} {w : LocalWrapper β} {s : Schema} (h1 : w.config = some s)
+    (h2 : inForceOK s (see O w.fc) = true) : WInv O w := by
+  intro c hcc
+  rw [h1] at hcc
+  injection hcc with e
+  subst e; exact h2
+
+section
+variable {β : Type} {O : BOps β} (hO : BOpsOK O)
+include hO
+
+/-- `NewFlowControl` on a legal schema does not dereference nil and builds the limiter the schema configures -/
+theorem newFlowControl_ok (s : Schema) (hl : schemaLegal s = true) :
+    ∃ l, newFlowControl O s = some l ∧ inForceOK s (see O (some l)) = true := by
+  rcases s with ⟨ex, mi, gmi, tb, gtb, st⟩
+  cases ex <;> cases mi <;> cases gmi <;> cases tb <;> cases gtb <;>
+    simp [schemaLegal, guessType, newFlowControl, inForceOK, see, hO.new_qps, hO.new_burst] at hl ⊢
+
+/-- `localWrapper.Sync` with a legal schema: afterwards the wrapper records the schema and serves it as configured,
+    whatever it was before (first use, same type, another type, the same schema again) -/
+theorem wrapper_sync_ok (w : LocalWrapper β) (s : Schema) (hl : schemaLegal s = true) (hw : WInv O w) :
+    ∃ w', w.sync O s = some w' ∧ w'.config = some s ∧ WInv O w' := by
+  unfold LocalWrapper.sync
+  by_cases hc : w.config = some s
+  · simp only [hc, if_true]
+    exact ⟨w, rfl, hc, hw⟩
+  · simp only [hc, if_false]
+    have fresh : ∃ w', (newFlowControl O s).map (fun l => ({ fc := some l, config := some s } : LocalWrapper β)) = some w' ∧
+        w'.config = some s ∧ WInv O w' := by
+      obtain ⟨l, h1, h2⟩ := newFlowControl_ok hO s hl
+      exact ⟨{ fc := some l, config := some s }, by rw [h1]; rfl, rfl, wInv_of rfl h2⟩
+    cases hfc : w.fc with
+    | none => exact fresh
+    | some l =>
+      by_cases ht : l.type ≠ guessType s
+      · show ∃ w', (if l.type ≠ guessType s then _ else _) = some w' ∧ _
+        rw [if_pos ht]; exact fresh
+      · have ht' : l.type = guessType s := Classical.byContradiction ht
+        show ∃ w', (if l.type ≠ guessType s then _ else _) = some w' ∧ _
+        rw [if_neg ht]
+        rcases s with ⟨ex, mi, gmi, tb, gtb, st⟩
+        cases l with
+        | exempt =>
+          refine ⟨_, rfl, rfl, wInv_of rfl ?_⟩
+          simp only [Limiter.type] at ht'
+          simp [inForceOK, see, ← ht']
+        | mi m =>
+          simp only [Limiter.type] at ht'
+          cases ex <;> cases mi <;> cases gmi <;> cases tb <;> cases gtb <;>
+            simp [schemaLegal, guessType] at hl ht' <;>
+            (refine ⟨_, rfl, rfl, wInv_of rfl ?_⟩
+             simp [inForceOK, see, guessType])
+        | tb b =>
+          simp only [Limiter.type] at ht'
+          cases ex <;> cases mi <;> cases gmi <;> cases tb <;> cases gtb <;>
+            simp [schemaLegal, guessType] at hl ht' <;>
+            (refine ⟨_, rfl, rfl, wInv_of rfl ?_⟩
+             simp [inForceOK, see, guessType, hO.resize_qps, hO.resize_burst])
+
+end
+
+theorem lookup_setCache_same {β : Type} (n : Nat) (w : LocalWrapper β) :
+    ∀ cs : List (Nat × LocalWrapper β), (setCache n w cs).lookup n = some w
+  | [] => by simp [setCache, List.lookup]
+  | x :: r => by
+    unfold setCache
+    by_cases h : x.1 = n
+    · simp [h, List.lookup]
+    · have : (n == x.1) = false := by simp; exact fun e => h e.symm
+      simp only [h, if_false]
+      rw [show x = (x.1, x.2) from rfl, List.lookup, this]
+      exact lookup_setCache_same n w r
+
+theorem lookup_setCache_other {β : Type} (n m : Nat) (w : LocalWrapper β) (h : m ≠ n) :
+    ∀ cs : List (Nat × LocalWrapper β), (setCache n w cs).lookup m = cs.lookup m
+  | [] => by
+    have : (m == n) = false := by simpa using h
+    simp [setCache, List.lookup, this]
+  | x :: r => by
+    unfold setCache
+    by_cases hx : x.1 = n
+    · have h1 : (m == n) = false := by simpa using h
+      have h2 : (m == x.1) = false := by rw [hx]; exact h1
+      simp only [hx, if_true]
+      rw [List.lookup, h1, show x = (x.1, x.2) from rfl, List.lookup, h2]
+    · simp only [hx, if_false]
+      rw [show x = (x.1, x.2) from rfl, List.lookup, List.lookup]
+      rw [lookup_setCache_other n m w h r]
+
+theorem lookup_filter_key {α : Type} (P : Nat → Bool) (n : Nat) :
+    ∀ cs : List (Nat × α), (cs.filter fun x => P x.1).lookup n = if P n then cs.lookup n else none
+  | [] => by simp [List.lookup]
+  | x :: r => by
+    have ih := lookup_filter_key P n r
+    rw [List.filter_cons]
+    by_cases hx : P x.1 = true
+    · simp only [hx, if_true]
+      rw [show x = (x.1, x.2) from rfl, List.lookup, List.lookup, ih]
+      by_cases hn : (n == x.1) = true
+      · have : n = x.1 := by simpa using hn
+        simp [hn, this, hx]
+      · have hn' : (n == x.1) = false := by simpa using hn
+        simp [hn']
+    · have hx' : P x.1 = false := by simpa using hx
+      simp only [hx', Bool.false_eq_true, if_false]
+      rw [ih, show x = (x.1, x.2) from rfl, List.lookup]
+      by_cases hn : (n == x.1) = true
+      · have : n = x.1 := by simpa using hn
+        simp [this, hx']
+      · have hn' : (n == x.1) = false := by simpa using hn
+        simp [hn']
+
+theorem lookup_of_mem_legal : ∀ (sp : Spec) (n : Nat) (s : Schema), specLegal sp = true → (n, s) ∈ sp →
+    sp.lookup n = some s
+  | [], _, _, _, h => by cases h
+  | (n0, s0) :: r, n, s, hl, hm => by
+    simp only [specLegal, Bool.and_eq_true] at hl
+    obtain ⟨⟨h1, _⟩, h3⟩ := hl
+    rcases List.mem_cons.1 hm with h | h
+    · injection h with ha hb
+      subst ha; subst hb
+      simp [List.lookup]
+    · have ih := lookup_of_mem_legal r n s h3 h
+      by_cases hn : n = n0
+      · subst hn
+        rw [ih] at h1; simp at h1
+      · have : (n == n0) = false := by simpa using hn
+        rw [List.lookup, this]; exact ih
+
+section
+variable {β : Type} {O : BOps β} (hO : BOpsOK O)
+include hO
+
+theorem syncLoop_ok : ∀ (spec : Spec) (cs : List (Nat × LocalWrapper β)), specLegal spec = true →
+    (∀ n w, cs.lookup n = some w → WInv O w) →
+    ∃ cs', syncLoop O cs spec = some cs' ∧ (∀ n w, cs'.lookup n = some w → WInv O w) ∧
+      (∀ n s, spec.lookup n = some s → ∃ w, cs'.lookup n = some w ∧ w.config = some s) ∧
+      (∀ n, spec.lookup n = none → cs'.lookup n = cs.lookup n)
+  | [], cs, _, hall => ⟨cs, rfl, hall, by intro n s h; simp [List.lookup] at h, fun _ _ => rfl⟩
+  | (n0, s0) :: rest, cs, hl, hall => by
+    simp only [specLegal, Bool.and_eq_true] at hl
+    obtain ⟨⟨h1, h2⟩, h3⟩ := hl
+    have hw0 : WInv O ((cs.lookup n0).getD LocalWrapper.empty) := by
+      cases hc : cs.lookup n0 with
+      | none => exact wInv_empty O
+      | some w => exact hall n0 w hc
+    obtain ⟨w', hs, hcfg, hw'⟩ := wrapper_sync_ok hO _ s0 h2 hw0
+    have hall1 : ∀ n w, (setCache n0 w' cs).lookup n = some w → WInv O w := by
+      intro n w hlk
+      by_cases hn : n = n0
+      · subst hn
+        rw [lookup_setCache_same] at hlk
+        injection hlk with e; subst e; exact hw'
+      · rw [lookup_setCache_other n0 n w' hn] at hlk
+        exact hall n w hlk
+    obtain ⟨cs', hr, hall', hin, hout⟩ := syncLoop_ok rest (setCache n0 w' cs) h3 hall1
+    refine ⟨cs', ?_, hall', ?_, ?_⟩
+    · simp only [syncLoop, hs]; exact hr
+    · intro n s hlk
+      by_cases hn : n = n0
+      · subst hn
+        simp [List.lookup] at hlk
+        subst hlk
+        have hnone : rest.lookup n = none := by
+          cases hr' : rest.lookup n with
+          | none => rfl
+          | some x => rw [hr'] at h1; simp at h1
+        refine ⟨w', ?_, hcfg⟩
+        rw [hout n hnone, lookup_setCache_same]
+      · have : (n == n0) = false := by simpa using hn
+        rw [List.lookup, this] at hlk
+        exact hin n s hlk
+    · intro n hlk
+      by_cases hn : n = n0
+      · subst hn; simp [List.lookup] at hlk
+      · have : (n == n0) = false := by simpa using hn
+        rw [List.lookup, this] at hlk
+        rw [hout n hlk, lookup_setCache_other n0 n w' hn]
+
+/-- invariant of the upstream limiter: the spec in force is legal, every cached wrapper serves what it records, and
+    every schema of the spec has its cache, recording exactly that schema -/
+structure ULInv (u : UL β) : Prop where
+  legal : specLegal u.current = true
+  all : ∀ n w, u.caches.lookup n = some w → WInv O w
+  cur : ∀ n s, u.current.lookup n = some s → ∃ w, u.caches.lookup n = some w ∧ w.config = some s
+
+theorem ulInv_init : ULInv (O := O) (UL.init : UL β) where
+  legal := rfl
+  all := by intro n w h; simp [UL.init, List.lookup] at h
+  cur := by intro n s h; simp [UL.init, List.lookup] at h
+
+theorem ul_sync_ok (u : UL β) (spec : Spec) (hl : specLegal spec = true) (hu : ULInv (O := O) u) :
+    ∃ u', u.sync O spec = some u' ∧ ULInv (O := O) u' ∧ u'.current = spec := by
+  unfold UL.sync
+  by_cases hc : u.current = spec
+  · simp only [hc, if_true]
+    exact ⟨u, rfl, hu, hc⟩
+  · simp only [hc, if_false]
+    obtain ⟨cs', hr, hall', hin, _⟩ := syncLoop_ok hO spec u.caches hl hu.all
+    rw [hr]
+    refine ⟨_, rfl, ⟨hl, ?_, ?_⟩, rfl⟩
+    · intro n w hlk
+      simp only [] at hlk
+      rw [lookup_filter_key (fun k => !((u.current.lookup k).isSome && (spec.lookup k).isNone)) n cs'] at hlk
+      split at hlk
+      · exact hall' n w hlk
+      · cases hlk
+    · intro n s hlk
+      obtain ⟨w, h1, h2⟩ := hin n s hlk
+      refine ⟨w, ?_, h2⟩
+      show (cs'.filter fun x => !((u.current.lookup x.1).isSome && (spec.lookup x.1).isNone)).lookup n = some w
+      rw [lookup_filter_key (fun k => !((u.current.lookup k).isSome && (spec.lookup k).isNone)) n cs']
+      simp [hlk, h1]
+
+/-- a `TryAcquire` on the bucket serving `n` changes neither which limiter serves what nor its parameters -/
+theorem ul_setBucket_ok (u : UL β) (n : Nat) (b b' : β) (hu : ULInv (O := O) u)
+    (hload : u.load n = some (.tb b)) (hq : O.qps b' = O.qps b) (hb : O.burst b' = O.burst b) :
+    ULInv (O := O) (u.setBucket n b') := by
+  unfold UL.load at hload
+  cases hc : u.caches.lookup n with
+  | none => rw [hc] at hload; cases hload
+  | some w =>
+    rw [hc] at hload
+    have hfc : w.fc = some (.tb b) := hload
+    unfold UL.setBucket
+    simp only [hc]
+    refine ⟨hu.legal, ?_, ?_⟩
+    · intro m w2 hlk
+      by_cases hm : m = n
+      · subst hm
+        rw [lookup_setCache_same] at hlk
+        injection hlk with e; subst e
+        intro c hcc
+        have := hu.all m w hc c hcc
+        rw [hfc] at this
+        simpa [see, hq, hb] using this
+      · rw [lookup_setCache_other n m _ hm] at hlk
+        exact hu.all m w2 hlk
+    · intro m s hlk
+      obtain ⟨w2, h1, h2⟩ := hu.cur m s hlk
+      by_cases hm : m = n
+      · subst hm
+        rw [hc] at h1; injection h1 with e; subst e
+        exact ⟨_, lookup_setCache_same _ _ _, h2⟩
+      · exact ⟨w2, by rw [lookup_setCache_other n m _ hm]; exact h1, h2⟩
+
+/-- with the invariant, every schema of the spec in force is served as configured -/
+theorem allInForce_of_inv (u : UL β) (hu : ULInv (O := O) u) : allInForce O u = true := by
+  unfold allInForce
+  rw [List.all_eq_true]
+  intro x hx
+  have hlk := lookup_of_mem_legal u.current x.1 x.2 hu.legal hx
+  obtain ⟨w, h1, h2⟩ := hu.cur x.1 x.2 hlk
+  have := hu.all x.1 w h1 x.2 h2
+  unfold UL.load
+  rw [h1]
+  exact this
+
+end
+
+theorem tryAcquire_qps (A : Arith) (b : Bucket) (now : Rat) :
+    (b.tryAcquire A now).2.qps = b.qps ∧ (b.tryAcquire A now).2.burst = b.burst := by
+  unfold Bucket.tryAcquire
+  split <;> exact ⟨rfl, rfl⟩
+
+/-- every legal history from any state satisfying the invariant runs without a nil dereference, keeps the
+    invariant and ends with the last synced spec in force -/
+theorem ul_runOps_ok (A : Arith) : ∀ (ops : List ULOp) (u : UL Bucket), opsLegal ops = true →
+    ULInv (O := ratOps) u →
+    ∃ u', UL.runOps A u ops = some u' ∧ ULInv (O := ratOps) u' ∧ u'.current = lastSpec u.current ops
+  | [], u, _, hu => ⟨u, rfl, hu, rfl⟩
+  | .sync sp :: rest, u, hl, hu => by
+    simp only [opsLegal, Bool.and_eq_true] at hl
+    obtain ⟨u1, h1, h2, h3⟩ := ul_sync_ok ratOps_ok u sp hl.1 hu
+    obtain ⟨u', h4, h5, h6⟩ := ul_runOps_ok A rest u1 hl.2 h2
+    refine ⟨u', ?_, h5, ?_⟩
+    · simp only [UL.runOps, h1]; exact h4
+    · rw [h6, h3]; rfl
+  | .acquire n now :: rest, u, hl, hu => by
+    simp only [opsLegal] at hl
+    simp only [UL.runOps, lastSpec]
+    cases hacq : u.acquireWith (fun b => b.tryAcquire A now) n with
+    | none => exact ul_runOps_ok A rest u hl hu
+    | some r =>
+      have hinv : ULInv (O := ratOps) r.2 ∧ r.2.current = u.current := by
+        unfold UL.acquireWith at hacq
+        split at hacq
+        · rename_i b hload
+          injection hacq with e; subst e
+          have hq := tryAcquire_qps A b now
+          refine ⟨ul_setBucket_ok ratOps_ok u n b _ hu hload hq.1 hq.2, ?_⟩
+          show (u.setBucket n (b.tryAcquire A now).2).current = u.current
+          unfold UL.setBucket; split <;> rfl
+        · cases hacq
+      obtain ⟨u', h4, h5, h6⟩ := ul_runOps_ok A rest r.2 hl hinv.1
+      exact ⟨u', h4, h5, by rw [h6, hinv.2]⟩
+
 end KG.Lemmas.TokenBucket
